@@ -127,6 +127,22 @@ class Assembler:
                 txt = self._kept_derives(src, a) + txt + eq_impl
                 self.items.append(dict(kind=kind[3:], file=rel, name=name, sha=src.sha(a, b)))
                 emit(txt)
+            elif s.startswith('//@tryfrom '):
+                # num_enum's TryFromPrimitive derive, regenerated from the enum's discriminants (D1)
+                _, rel, name, prim = s.split()[:4]
+                src = self.src(rel)
+                a, b = src.find_enum(name)
+                txt = strip_attrs_and_docs(src.text[a:b])
+                pairs = re.findall(r'(\w+)\s*=\s*(0x[0-9a-fA-F]+|\d+)', txt)
+                if not pairs:
+                    raise LostAnchor('enum %s has no explicit discriminants' % name)
+                self.items.append(dict(kind='tryfrom', file=rel, name=name, sha=src.sha(a, b)))
+                spec = ' else '.join('if x == %s { Some(%s::%s) }' % (v, name, n) for n, v in pairs) + ' else { None }'
+                emit('pub open spec fn %s_of(x: %s) -> Option<%s> { %s }' % (name.lower(), prim, name, spec))
+                emit('impl TryFrom<%s> for %s {\n\ttype Error = TryFromPrimitiveError<%s>;\n\t#[verifier::external_body]\n'
+                     '\tfn try_from(x: %s) -> (r: std::result::Result<%s, TryFromPrimitiveError<%s>>)\n'
+                     '\t\tensures %s_of(x) is Some ==> r is Ok && r->Ok_0 == %s_of(x)->Some_0, %s_of(x) is None ==> r is Err\n\t{ unimplemented!() }\n}'
+                     % (prim, name, name, prim, name, name, name.lower(), name.lower(), name.lower()))
             elif s.startswith('//@fn '):
                 parts = [p.strip() for p in s[len('//@fn '):].split(' | ')]
                 rel, impl, name = parts[0], parts[1], parts[2]
@@ -456,6 +472,19 @@ class Assembler:
                 if n > len(hits):
                     raise LostAnchor('%s: closure %d not found' % (qn, n))
                 h = hits[n - 1]
+                # an annotated closure needs a block body: wrap an expression body in braces (R8b)
+                k = h.end()
+                while m[k] in ' \t\n':
+                    k += 1
+                if m[k] != '{':
+                    e = k
+                    while e < len(m):
+                        if m[e] in '([{':
+                            e = match_close(m, e)
+                        elif m[e] in ')]},;':
+                            break
+                        e += 1
+                    body = body[:k] + '{ ' + body[k:e].rstrip() + ' }' + body[e:]
                 body = body[:h.start()] + ' '.join(t.strip() for t in sec['text']) + ' ' + body[h.end():]
             elif sec['kind'] in ('after', 'before', 'afterblock'):
                 snippet = sec['arg'].strip('"')
